@@ -13,14 +13,14 @@ def strassen_groups(props):
         "SQR_EVEN": ("_mzd_sqr_even", ["_mzd_sqr_even"], common + ["_mzd_mul_even", "mzd_mul"]),
         "ADDSQR_EVEN": ("_mzd_addsqr_even", ["_mzd_addsqr_even"], common + ["_mzd_mul_even", "_mzd_addmul_even", "_mzd_sqr_even"]),
     }
+    fam = ["_mzd_mul_even", "_mzd_addmul_even", "_mzd_sqr_even", "_mzd_addsqr_even", "_mzd_addmul", "mzd_mul", "mzd_addmul"]
     for name, (fn, rec, repl) in spec.items():
         gs.append(Group(gid="S." + fn, props=list(props), harness="s_strassen.c", function=fn, layer="S", defines={"H_" + name: None},
-                        tus=[t for t in ALL_TUS if t not in ("solve",)] + ["/verif/stubs/libm_any.c"], native_tus=[], enforce_rec=rec, replace=repl, loop_contracts=True,
-                        object_bits=12, bounded=False, bound_note="(all dimensions and the cutoff symbolic; loop closed by invariant)", timeout=1500, mem_gb=24, slots=3,
-                        cbmc_flags=["--unwind", "1"]))
+                        tus=["misc"] + ["/verif/stubs/libm_any.c"], native_tus=[], enforce_rec=rec, replace=repl, loop_contracts=True, remove_bodies=[f for f in fam if f != fn and f not in repl],
+                        object_bits=12, bounded=False, bound_note="(all dimensions and the cutoff symbolic; loop closed by invariant)", timeout=1500, mem_gb=24, slots=3))
     for name, fn in (("MUL", "mzd_mul"), ("ADDMUL", "mzd_addmul")):
         gs.append(Group(gid="S." + fn, props=list(props), harness="s_strassen.c", function=fn, layer="S", defines={"H_" + name: None},
-                        tus=[t for t in ALL_TUS if t not in ("solve",)] + ["/verif/stubs/libm_any.c"], native_tus=[], enforce=[fn],
+                        tus=["misc"] + ["/verif/stubs/libm_any.c"], native_tus=[], enforce=[fn],
                         replace=["mzd_init", "_mzd_mul_even", "_mzd_sqr_even", "_mzd_addmul_even", "_mzd_addsqr_even"], object_bits=12, bounded=False,
                         bound_note="(all dimensions and the cutoff symbolic; default cutoff arbitrary via the libm stub)", timeout=900, mem_gb=16, slots=2))
     return gs
